@@ -18,6 +18,13 @@ Families
           body style  r(I,X,v) :- t(I,X).  with the facts t(I,a) / t(I,b) present or not
                                                                     (inapplicable = the body fails)
         and the calls cut/1 and cut/2 for both arguments (see BOUNDS for what quick leaves out).
+  struct (a stratum of det, same machinery) structured keys: the key of a rule ranges over terms with and
+        without variables  f(_) f(a) f(b) g(a,_) g(_,b) [_|_] [a] _ a  and the calls use the ground compound
+        keys f(a) f(b) g(a,b) [a].  Applicability is decided by the reference matcher ``matches`` (linear
+        pattern against ground term) on terms parsed by ``parse_term``:
+          head style  r(I,<key>,v).                      (applicable = the head key unifies with the call key)
+          body style  r(I,X,v) :- t(I,X).  t(I,<key>).    (applicable = the body condition holds)
+        Index subsets of {1,2,3,10} of size <= 3, every file order, cut/1 and cut/2 (see STRUCT_BOUNDS).
   prob  probabilistic conditions, run through the default inference pipeline (vf.plrun.infer):
         per rule one of N (no clause matches), D (fact), P (:- q(I)), Q (:- \\+ q(I)) with
         independent facts p_I::q(I); queries cut(r(a,X)) and cut(r(a,X),I).
@@ -78,6 +85,30 @@ BOUNDS = {
     },
 }
 
+# structured keys (stratum "struct"); simplest first (the shrinker walks towards the front)
+STRUCT_INDICES = [1, 2, 3, 10]
+STRUCT_PATS = ["a", "_", "f(a)", "f(b)", "f(_)", "[a]", "[_|_]", "g(a,_)", "g(_,b)"]
+STRUCT_PATS7 = ["a", "_", "f(a)", "f(b)", "f(_)", "[_|_]", "g(a,_)"]
+STRUCT_PATS4 = ["_", "f(_)", "[_|_]", "g(a,_)"]
+STRUCT_CALLS = ["f(a)", "f(b)", "g(a,b)", "[a]"]
+CALL_ORDER = ["a", "b"] + STRUCT_CALLS
+STRUCT_ALLQ = [(v, c) for c in STRUCT_CALLS for v in ("cut1", "cut2")]
+STRUCT_CROSSQ = [("cut1", "f(a)"), ("cut2", "f(b)"), ("cut2", "g(a,b)"), ("cut1", "[a]")]
+# (size, styles, key alphabet, queries)
+STRUCT_BOUNDS = {
+    "quick": [
+        (1, ["head", "body"], STRUCT_PATS7, STRUCT_ALLQ),
+        (2, ["head", "body"], STRUCT_PATS7, STRUCT_ALLQ),
+        (3, ["head", "body"], STRUCT_PATS4, STRUCT_CROSSQ),
+    ],
+    "thorough": [
+        (1, ["head", "body"], STRUCT_PATS, STRUCT_ALLQ),
+        (2, ["head", "body"], STRUCT_PATS, STRUCT_ALLQ),
+        (3, ["head", "body"], STRUCT_PATS7, STRUCT_ALLQ),
+    ],
+}
+DET_ORDER_ALL = DET_ORDER + ["H:" + p for p in STRUCT_PATS] + ["B:" + p for p in STRUCT_PATS]
+
 
 def least(indices):
     """the smallest index in the standard order of terms (reference R5)"""
@@ -87,16 +118,99 @@ def least(indices):
 # ---------------------------------------------------------------------------------------------
 # program text
 
+def parse_term(text):
+    """reference term reader for the key alphabet: atom -> 'a', variable -> '_' (every occurrence a
+    fresh variable), compound -> [functor, arg, ...], list cell -> ['.', head, tail], '[]'"""
+    pos = [0]
+
+    def peek():
+        return text[pos[0]] if pos[0] < len(text) else ""
+
+    def eat(ch):
+        if peek() != ch:
+            raise ValueError("bad term %r at %d" % (text, pos[0]))
+        pos[0] += 1
+
+    def term():
+        c = peek()
+        if c == "[":
+            eat("[")
+            if peek() == "]":
+                eat("]")
+                return "[]"
+            items = [term()]
+            while peek() == ",":
+                eat(",")
+                items.append(term())
+            tail = "[]"
+            if peek() == "|":
+                eat("|")
+                tail = term()
+            eat("]")
+            for it in reversed(items):
+                tail = [".", it, tail]
+            return tail
+        if c == "_":
+            eat("_")
+            return "_"
+        n = pos[0]
+        while peek().isalnum():
+            pos[0] += 1
+        name = text[n:pos[0]]
+        if not name or not name[0].islower():
+            raise ValueError("bad term %r at %d" % (text, n))
+        if peek() != "(":
+            return name
+        eat("(")
+        args = [term()]
+        while peek() == ",":
+            eat(",")
+            args.append(term())
+        eat(")")
+        return [name] + args
+
+    t = term()
+    if pos[0] != len(text):
+        raise ValueError("trailing text in %r" % text)
+    return t
+
+
+def matches(pattern, ground):
+    """does the linear pattern (every '_' a distinct variable) unify with the ground term?"""
+    if pattern == "_":
+        return True
+    if isinstance(pattern, str) or isinstance(ground, str):
+        return pattern == ground
+    return len(pattern) == len(ground) and pattern[0] == ground[0] and all(
+        matches(p, g) for p, g in zip(pattern[1:], ground[1:]))
+
+
+_OLD_KEYS = {"HA": ["a"], "HB": ["b"], "HV": ["_"], "HN": ["c"], "BA": ["a"], "BB": ["b"], "BV": ["a", "b"], "BN": []}
+
+
+def kind_keys(kind):
+    """the key terms of a rule kind: the head key (head style) or the keys of its t/2 facts (body style)"""
+    if kind in _OLD_KEYS:
+        return _OLD_KEYS[kind]
+    if kind[:2] in ("H:", "B:"):
+        return [kind[2:]]
+    raise ValueError(kind)
+
+
+def applicable(kind, arg):
+    """reference: is a rule of this kind applicable to the call key `arg` (ground term text)"""
+    g = parse_term(arg)
+    return any(matches(parse_term(k), g) for k in kind_keys(kind))
+
+
 def det_clauses(pred, tpred, idx, kind):
     v = "v%d" % idx
+    keys = kind_keys(kind)
     if kind[0] == "H":
-        key = {"HA": "a", "HB": "b", "HV": "_", "HN": "c"}[kind]
-        return ["%s(%d,%s,%s)." % (pred, idx, key, v)]
+        return ["%s(%d,%s,%s)." % (pred, idx, keys[0], v)]
     out = ["%s(%d,X,%s) :- %s(%d,X)." % (pred, idx, v, tpred, idx)]
-    if kind in ("BA", "BV"):
-        out.append("%s(%d,a)." % (tpred, idx))
-    if kind in ("BB", "BV"):
-        out.append("%s(%d,b)." % (tpred, idx))
+    for k in keys:
+        out.append("%s(%d,%s)." % (tpred, idx, k))
     return out
 
 
@@ -149,8 +263,7 @@ def program_text(case):
 # expectation
 
 def expected_det(indices, kinds, variant, arg, pred="r"):
-    col = 0 if arg == "a" else 1
-    app = [i for i, k in zip(indices, kinds) if DET_KINDS[k][col]]
+    app = [i for i, k in zip(indices, kinds) if applicable(k, arg)]
     if not app:
         return set()
     w = least(app)
@@ -294,12 +407,13 @@ def shrink_case(case, symptom, fast=False):
         if len(cs.get("queries", [])) > 1:
             for q in cs["queries"]:
                 yield dict(cs, queries=[q])
-        if cs.get("arg") == "b":
-            yield dict(cs, arg="a")
+        if cs.get("arg") in CALL_ORDER:
+            for a2 in CALL_ORDER[:CALL_ORDER.index(cs["arg"])]:
+                yield dict(cs, arg=a2)
         for p in range(len(idx)):
             if len(idx) > 1:
                 yield dict(cs, indices=idx[:p] + idx[p + 1:], kinds=kinds[:p] + kinds[p + 1:])
-        order = DET_ORDER if cs["family"] == "det" else PROB_ORDER
+        order = DET_ORDER_ALL if cs["family"] == "det" else PROB_ORDER
         for p, k in enumerate(kinds):
             for k2 in order[:order.index(k)]:
                 yield dict(cs, kinds=kinds[:p] + [k2] + kinds[p + 1:])
@@ -309,7 +423,7 @@ def shrink_case(case, symptom, fast=False):
             yield dict(cs, indices=[i for i, _ in pairs], kinds=[k for _, k in pairs])
         # smaller indices
         for p, i in enumerate(idx):
-            for j in ALPHABET[:ALPHABET.index(i)]:
+            for j in ALPHABET[:ALPHABET.index(i)] if i in ALPHABET else []:
                 if j not in idx:
                     yield dict(cs, indices=idx[:p] + [j] + idx[p + 1:])
 
@@ -395,6 +509,18 @@ class C33(Prop):
         for k, v in want.items():
             if abs(e[k] - v) > 1e-12:
                 raise RuntimeError("closed form broken: %s" % (e,))
+        # the reference matcher: agrees with the hand-written table on the atomic keys, and by hand on structured ones
+        for k, row in DET_KINDS.items():
+            assert (applicable(k, "a"), applicable(k, "b")) == (bool(row[0]), bool(row[1])), k
+        assert parse_term("[a]") == [".", "a", "[]"] and parse_term("[_|_]") == [".", "_", "_"]
+        assert parse_term("g(a,_)") == ["g", "a", "_"]
+        yes = [("f(_)", "f(a)"), ("f(_)", "f(b)"), ("g(a,_)", "g(a,b)"), ("g(_,b)", "g(a,b)"), ("[_|_]", "[a]"),
+               ("[a]", "[a]"), ("_", "[a]"), ("_", "g(a,b)"), ("f(a)", "f(a)")]
+        no = [("f(_)", "g(a,b)"), ("f(_)", "[a]"), ("f(a)", "f(b)"), ("a", "f(a)"), ("[_|_]", "f(a)"),
+              ("g(a,_)", "f(a)"), ("[a]", "f(a)"), ("f(b)", "f(a)")]
+        assert all(applicable("H:" + p, c) and applicable("B:" + p, c) for p, c in yes)
+        assert not any(applicable("H:" + p, c) or applicable("B:" + p, c) for p, c in no)
+        assert expected_det([2, 1], ["HV", "H:f(_)"], "cut2", "f(a)") == {("r(f(a),v1)", "1")}
         # the documented example of docs/source/prolog.rst / cut.pl
         from ..plrun import BuiltinHarness
 
@@ -417,6 +543,14 @@ class C33(Prop):
                             res.append(["det", s, [style], first])
                 else:
                     res.append(["det", s, styles, None])
+        for size, styles, pats, _ in STRUCT_BOUNDS[tier]:
+            for s in itertools.combinations(STRUCT_INDICES, size):
+                for style in styles:
+                    if size == 3:
+                        for first in s:
+                            res.append(["struct", list(s), [style], first])
+                    else:
+                        res.append(["struct", list(s), [style], None])
         for size, _ in b["prob"]:
             for s in subsets(size):
                 if size >= 4:
@@ -433,6 +567,10 @@ class C33(Prop):
             for style in styles:
                 spec = [x for x in BOUNDS[tier]["det"] if x[0] == len(subset) and style in x[1]][0]
                 self._det(subset, orders, style, spec[2], spec[3][style], acc)
+        elif fam == "struct":
+            spec = [x for x in STRUCT_BOUNDS[tier] if x[0] == len(subset)][0]
+            for style in styles:
+                self._det(subset, orders, style, spec[2], spec[3], acc)
         else:
             queries = [q for size, q in BOUNDS[tier]["prob"] if size == len(subset)][0]
             self._prob(subset, orders, PROB_KINDS[tier] if len(subset) < 4 else PROB_KINDS_SIZE4, queries, acc)
@@ -443,6 +581,11 @@ class C33(Prop):
 
         sets = []
         for order in orders:
+            if isinstance(patterns, list):  # structured keys: every assignment of the key alphabet
+                pre = "H:" if style == "head" else "B:"
+                for ks in itertools.product(patterns, repeat=len(subset)):
+                    sets.append((order, [pre + k for k in ks]))
+                continue
             for kinds in det_patterns(len(subset), style, patterns):
                 sets.append((order, kinds))
         CH = 400
@@ -474,8 +617,11 @@ class C33(Prop):
                         acc.cap(TIMEOUT_CAP)
                         continue
                     acc.traces += 1
-                    col = 0 if arg == "a" else 1
-                    app = [i for i, k in zip(order, kinds) if DET_KINDS[k][col]]
+                    app = [i for i, k in zip(order, kinds) if applicable(k, arg)]
+                    if isinstance(patterns, list):
+                        acc.counters["struct_executions"] += 1
+                        if any("_" in k and k[2:] != "_" for i, k in zip(order, kinds) if i in app):
+                            acc.counters["struct_applicable_rule_with_nonground_compound_key"] += 1
                     if len(order) >= 2 and app and app[0] != least(app):
                         acc.nontrivial += 1
                     if res[0] == "ok":
